@@ -32,6 +32,8 @@ def adapt(run):
             out.append({"ev": "Flush", "es": list(ev["x"]), "md": ev["md"]})
         elif k == "cons_done" and not sync:
             out.append({"ev": "ConsumerDone", "es": d2es.get(ev["d"], [])})
+        elif k == "cons_fail":
+            out.append({"ev": "ConsumerFail", "es": d2es.get(ev["d"], [])})
         elif k == "release" and ev["site"].endswith("partition._flush"):
             batch_of = next((tuple(es) for es in d2es.values() if ev["tag"] in es), None)
             if rel is None or rel.get("_b") != batch_of:
@@ -97,7 +99,7 @@ def attribute(run, trace, idx):
 
 def consts_of(c):
     return dict(NE=c["max_elems"], N=c["n"], Timeout=int(c.get("timeout") or 0), Mod=c.get("mod") or 1,
-                SyncCons=c["cons"][0] == "sync", MaxTime=1000)
+                SyncCons=c["cons"][0] == "sync", MaxTime=1000, Faults=bool(c.get("faults")))
 
 
 def run(tier, seed, mutant=None, only_validate=False):
@@ -113,13 +115,16 @@ def run(tier, seed, mutant=None, only_validate=False):
             for (n, to, mod) in combos:
                 for sync in (False, True):
                     r, rec = amod.mc(res, work, "AsyncPartition", "n%d_t%d_m%d_sync%d" % (n, to, mod, sync),
-                                     dict(NE=ne, N=n, Timeout=to, Mod=mod, SyncCons=sync, MaxTime=2 * max(to, 1) + 2), INVS, workers=16)
+                                     dict(NE=ne, N=n, Timeout=to, Mod=mod, SyncCons=sync, MaxTime=2 * max(to, 1) + 2, Faults=not sync), INVS, workers=16)
                     amod.spec_violation(res, r, rec, INV_PROP, "C08", "partition")
         cfgs = []
         for (n, to, mod) in combos:
             for c in (("future", "sync") if tier == "quick" else ("future", "coro", "sync")):
                 cfgs.append({"kind": "partition", "n": n, "timeout": to or None, "mod": mod if mod > 1 else None,
                              "cons": [c], "max_elems": ne})
+        # the consumer's awaitable may raise (once per run)
+        cfgs.append({"kind": "partition", "n": 2, "timeout": 2, "mod": None, "cons": ["future"], "max_elems": ne, "faults": True})
+        cfgs.append({"kind": "partition", "n": 2, "timeout": None, "mod": 2, "cons": ["future"], "max_elems": ne, "faults": True})
         # falsy payloads (None, 0) are elements like any other
         cfgs.append({"kind": "partition", "n": 2, "timeout": 2, "mod": None, "cons": ["future"], "max_elems": ne,
                      "falsy": {"none": 2, "zero": 3}})
